@@ -228,7 +228,9 @@ fn judge_pulse(tag: &str, w: &World, rs: &Store, acct: &Pubkey, p: &Pulse, rep: 
                         let Some(bank) = world::try_bank(rs, &pos.bank) else { continue };
                         let Ok(o) = health::oracle_ref(rs, &bank) else { continue };
                         let reported = if req == Req::Initial { o.twap.clone() } else { o.spot.clone() };
-                        let v = pos.amount.clone() * pos.weight.clone() * reported / rf::pow10(bank.mint_decimals as u32);
+                        // Drift positions are kept in the venue's 9-decimal scaled units
+                        let dec = if bank.config.asset_tag == marginfi_type_crate::constants::ASSET_TAG_DRIFT { 9 } else { bank.mint_decimals as u32 };
+                        let v = pos.amount.clone() * pos.weight.clone() * reported / rf::pow10(dec);
                         if pos.is_liability {
                             unb_l += v;
                         } else if pos.oracle_err.is_none() {
@@ -338,6 +340,75 @@ fn value_sweep(tier: Tier, t: &mut Tally) {
                     let p = pulse(w, &s, &acct, None);
                     t.cells += 1;
                     judge_pulse(&tag, w, &s, &acct, &p, &rep, t);
+                }
+            }
+        }
+    }
+}
+
+/// venue-backed collateral (Kamino / Solend / Drift with a Pyth feed of the underlying): spot, EMA and
+/// both confidences must each carry the exchange rate
+fn venue_sweep(t: &mut Tally) {
+    let sc = scene(Kind::Pyth, Kind::Pyth, "x");
+    let w = &sc.w;
+    let acct = w.users[0].account;
+    let venue_k = key("c09:venue_account");
+    for venue in ["kamino", "solend", "drift"] {
+        for (rn, rd) in [(2u64, 1u64), (11, 10), (1, 1)] {
+            let mut s0 = sc.s.clone();
+            s0.slot = 777;
+            let (setup, tag, acct_data) = match venue {
+                "kamino" => {
+                    let mut r: kamino_mocks::state::MinimalReserve = bytemuck::Zeroable::zeroed();
+                    r.available_amount = 1_000_000_000 * rn;
+                    r.mint_total_supply = 1_000_000_000 * rd;
+                    r.mint_decimals = 6;
+                    r.slot = s0.slot;
+                    let mut d = kamino_mocks::state::RESERVE_DISCRIMINATOR.to_vec();
+                    d.extend_from_slice(bytemuck::bytes_of(&r));
+                    (OracleSetup::KaminoPythPush, marginfi_type_crate::constants::ASSET_TAG_KAMINO, Acct::new(1, d, kamino_mocks::ID))
+                }
+                "solend" => {
+                    let mut r: solend_mocks::state::SolendMinimalReserve = bytemuck::Zeroable::zeroed();
+                    r.liquidity_available_amount = 1_000_000_000 * rn;
+                    r.collateral_mint_total_supply = 1_000_000_000 * rd;
+                    r.liquidity_mint_decimals = 6;
+                    r.last_update_slot = s0.slot;
+                    let mut d = solend_mocks::state::RESERVE_DISCRIMINATOR.to_vec();
+                    d.extend_from_slice(bytemuck::bytes_of(&r));
+                    (OracleSetup::SolendPythPull, marginfi_type_crate::constants::ASSET_TAG_SOLEND, Acct::new(1, d, solend_mocks::ID))
+                }
+                _ => {
+                    let mut m = drift_mocks::state::MinimalSpotMarket::default();
+                    m.cumulative_deposit_interest = (10_000_000_000u128 * rn as u128 / rd as u128).to_le_bytes();
+                    m.decimals = 6;
+                    m.last_interest_ts = s0.now as u64;
+                    let mut d = drift_mocks::state::SPOT_MARKET_DISCRIMINATOR.to_vec();
+                    d.extend_from_slice(bytemuck::bytes_of(&m));
+                    (OracleSetup::DriftPythPull, marginfi_type_crate::constants::ASSET_TAG_DRIFT, Acct::new(1, d, drift_mocks::ID))
+                }
+            };
+            s0.set(venue_k, acct_data);
+            world::edit_bank(&mut s0, &w.banks[0].key, |b| {
+                b.config.oracle_setup = setup;
+                b.config.oracle_keys[1] = venue_k;
+                b.config.asset_tag = tag;
+            });
+            for price in [123_456_789i64, 40_000_000_000] {
+                for (conf_pp, ema_conf_pp) in [(0u64, 0u64), (100, 2000), (2000, 100), (1000, 1000), (2358, 2359)] {
+                    for (en, ed) in [(1i64, 1i64), (1, 2), (2, 1)] {
+                        let conf = (price as u128 * conf_pp as u128 / 100_000) as u64;
+                        let ema = price / ed * en;
+                        let ema_conf = (ema as u128 * ema_conf_pp as u128 / 100_000) as u64;
+                        let mut s = s0.clone();
+                        set_pyth(&mut s, &w.banks[0].oracle.unwrap(), price, conf, ema, ema_conf, -8, 0, true);
+                        forge_positions(&mut s, &acct, (w.banks[0].key, 1000 * 10i128.pow(6)), Some((w.banks[1].key, 3 * 10i128.pow(9))));
+                        let tag = format!("venue:{venue}");
+                        let rep = json!({"model": "C09V", "venue": venue, "rate": [rn, rd], "price": price, "conf_pp": conf_pp, "ema_conf_pp": ema_conf_pp, "ema": [en, ed]});
+                        let p = pulse(w, &s, &acct, None);
+                        t.cells += 1;
+                        judge_pulse(&tag, w, &s, &acct, &p, &rep, t);
+                    }
                 }
             }
         }
@@ -679,6 +750,7 @@ pub fn run(tier: Tier) -> Outcome {
         }
     }
     value_sweep(tier, &mut t);
+    venue_sweep(&mut t);
     let a_cells = t.cells;
     decision_matrix(tier, &mut t);
     let mut o = Outcome { level: "exploration".into(), ..Default::default() };
@@ -713,7 +785,7 @@ pub fn run(tier: Tier) -> Outcome {
         "outcome_classes": t.classes,
         "samples": t.samples,
     });
-    o.assumptions = vec!["environment model E1 (svm-lite)".into(), "oracle accounts, the staked bank and the bankrupt portfolio are forged account states".into(), "refusing is always allowed by this property (it is a safety property); the converse (no needless refusals) is C04's".into(), "exchange-rate-adjusted venue oracles (Kamino / Drift / Solend) are covered by C20's adapter sweep".into()];
+    o.assumptions = vec!["environment model E1 (svm-lite)".into(), "oracle accounts, the staked bank and the bankrupt portfolio are forged account states".into(), "refusing is always allowed by this property (it is a safety property); the converse (no needless refusals) is C04's".into(), "venue-backed banks: reference restricted to reserves / markets whose exchange rate is a ratio of two stored integers; the Switchboard flavours of the venue setups are covered by C20's adapter sweep only".into()];
     o
 }
 
